@@ -165,6 +165,18 @@ let sx_of_tables_obs (t : tables) : sx =
      aopt abn t.t_gdef; aopt abn t.t_gsub; aopt abn t.t_gpos; aopt abn t.t_kern]
 
 let rec last = function [x] -> x | _ :: l -> last l | [] -> failwith "empty case"
+let rec last2 = function [x; _] -> x | _ :: l -> last2 l | [] -> failwith "short case"
+
+(* (wctx (days xMDAY xCDAY) (extra TAG ...)) : what Write reads besides the
+   font value: the two day strings time.Format delivers, and the keys of
+   glyf.Outlines.Tables *)
+let wctx_of_sx = function
+  | L [A "wctx"; L [A "days"; md; cd]; L (A "extra" :: tags)] ->
+    (sx_bytes md, sx_bytes cd, List.map sx_n tags)
+  | _ -> failwith "bad wctx"
+
+let sx_of_rec (r : nrec) : sx =
+  L [an r.r_platform; an r.r_encoding; an r.r_language; an r.r_nameid; an r.r_off; an r.r_len]
 
 let () = main_loop (fun c ->
   match c with
@@ -177,7 +189,15 @@ let () = main_loop (fun c ->
          L [A "normalize-disagrees"; sx_of_font (normalize f); sx_of_font f1]
        else if in_range f && canonical f && f1 <> f then
          L [A "canonical-changed"; sx_of_font f1]
-       else L [A "ok"; sx_of_tables_obs t; sx_of_font f1]
+       else begin
+         let (mday, cday, extra) = wctx_of_sx (last2 rest) in
+         let tags = L (A "tags" :: List.map an (m_written_tags t extra)) in
+         let nametab =
+           match m_name_table_ascii c01_name_appleBCP c01_name_msBCP f mday cday with
+           | None -> A "-"
+           | Some (recs, storage) -> L [A "nametab"; L (List.map sx_of_rec recs); astr storage] in
+         L [A "ok"; sx_of_tables_obs t; sx_of_font f1; tags; nametab]
+       end
      | Err -> A "err" | Panic -> A "panic" | OutOfFuel -> A "fuel")
   | A "merge" :: rest ->
     (match m_read_merge (tables_of_sx (last rest)) with
